@@ -62,6 +62,10 @@ def run(ctx, R, tier):
     set_rule(F, R)
     set_unconditional(F, R)
     sib(F, R)
+    # "keeps its old value until the tween's start time": a clock start time is reached exactly when
+    # Info::when_to_start says so (ticking and clock time >= start time, fraction included) -- the C05 rule
+    from . import c05
+    c05.when(F, R)
 
 
 def prev(F, R):
